@@ -335,8 +335,102 @@ def discover(h):
     h.cover("discover explored")
 
 
+def _open_socket(h, g):
+    """The part of a search the `discovery.search` set takes by contract: the socket is a broadcast UDP
+    socket bound to the generation's discovery port, the protocol decodes with the generation's decoder,
+    and every decoded response ends up in the caller's set - once (duplicates collapse)."""
+    if not h.symbolic:
+        return
+    G = GEN[g]
+    w = World(h.it)
+    cfg = h.get(G["mod"] + ":CONFIG")
+    disc = h.new(DISC + ":AirTouchDiscoverer", cfg)
+    responses = SetVal()
+    r = h.method(disc, "_open_socket", responses)
+    h.oblige("_open_socket does not raise (given the OS lets the socket be bound)", r.ok)
+    if not r.ok:
+        return
+    ev = h.it.path.events
+    socks = [e[1] for e in ev if e[0] == "socket.socket"]
+    eps = [e for e in ev if e[0] == "endpoint"]
+    h.oblige("exactly one socket and one datagram endpoint on that socket are created",
+             And(len(socks) == 1, len(eps) == 1, eps[0][3] is socks[0] if socks and eps else False))
+    if len(socks) != 1 or len(eps) != 1:
+        return
+    sk, (_, tr, proto, _s) = socks[0], eps[0]
+    sm = h.it.loader.modules["socket"].ns
+    h.oblige("it is an IPv4 UDP socket", And(sk.kwargs.get("family") is sm["AF_INET"], sk.kwargs.get("type") is sm["SOCK_DGRAM"]))
+    h.oblige("broadcast is enabled on it", (sm["SOL_SOCKET"], sm["SO_BROADCAST"], 1) in sk.opts)
+    h.oblige(f"it is bound once, to all interfaces on the generation's discovery port {G['port']}", sk.bound == [("0.0.0.0", G["port"])])
+    h.oblige("the returned transport is the endpoint's", r.value is tr)
+    h.oblige("the endpoint's protocol is the decoding protocol, with this generation's decoder and response type",
+             And(h.isinstance(proto, DISC + ":_DiscoveryDecodeProtocol"), h.attr(proto, "_decoder") is h.attr(cfg, "decoder"),
+                 h.attr(proto, "_response_type") is h.attr(cfg, "response_type"), h.attr(cfg, "response_type") is h.get(G["mod"] + ":" + G["resp"]),
+                 h.isinstance(h.attr(cfg, "decoder"), G["mod"] + ":" + G["dec"])))
+    if not h.isinstance(proto, DISC + ":_DiscoveryDecodeProtocol"):
+        return
+    R = G["mod"] + ":" + G["resp"]
+    mk = lambda i: h.new(R, **dict(dict(airtouch_id=f"id{i}", host=f"10.0.0.{i}", serial="S"), **({"name": "a, b"} if g == 5 else {})))  # noqa: E731
+    h.oblige("nothing is in the caller's set before a response arrives", len(responses) == 0)
+    cb = h.attr(proto, "_callback")
+    for k, resp in enumerate([mk(0), mk(0), mk(1)]):
+        c = h.call(cb, resp)
+        h.oblige(f"the protocol's callback accepts response #{k}", c.ok)
+    h.oblige("every response reaches the caller's set; an identical one (same address, serial, id, name) collapses",
+             And(len(responses) == 2, any(h.attr(x, "airtouch_id") == "id0" for x in responses.items),
+                 any(h.attr(x, "airtouch_id") == "id1" for x in responses.items)))
+    h.oblige("responses are value objects (frozen dataclass with eq): what makes duplicates collapse in a set",
+             And(h.get(R).dc_frozen, h.get(R).dc_eq))
+    h.oblige("the request the search sends is the generation's fixed string",
+             h.eq(h.prop(h.call(h.attr(cfg, "request_factory")).value, "data").value, h.mkbytes(list(G["req"]))))
+    h.oblige("...to the generation's discovery port", And(h.attr(cfg, "remote_port") == G["port"], h.attr(cfg, "local_port") == G["port"]))
+    h.cover("socket opened")
+
+
+@oset("factory._search", ["C18", "C19"], [FACT + ":_search"],
+      trusted=["asyncio.as_completed yields each awaitable exactly once, in any order"])
+def factory_search(h):
+    """One discoverer per generation, each searched exactly once with the caller's remote host; the result is
+    the union of what both found, whichever finishes first."""
+    if not h.symbolic:
+        return
+    w = World(h.it)
+    host = h.choice("remote_host", [None, "192.168.1.9"])
+    found = {4: [h.new(GEN[4]["mod"] + ":At4DiscoveryResponse", airtouch_id=f"a{i}", host=f"10.0.4.{i}", serial="s")
+                 for i in range(h.choice("at4_found", [0, 2]))],
+             5: [h.new(GEN[5]["mod"] + ":At5DiscoveryResponse", airtouch_id="b", name="n", serial="s", host="10.0.5.0")
+                 for i in range(h.choice("at5_found", [0, 1]))]}
+    searched = []
+
+    def search_stub(it, fn, args, kwargs):
+        d = args[0]
+
+        def run(it2):
+            cfg = h.attr(d, "_discovery_config")
+            g = 4 if cfg is h.get(GEN[4]["mod"] + ":CONFIG") else 5 if cfg is h.get(GEN[5]["mod"] + ":CONFIG") else None
+            searched.append((g, h.attr(d, "_remote_host")))
+            aio.suspend(it2, ("search", g))
+            return list(found.get(g, []))
+        return aio.Awaitable("search", run)
+    h.it.call_hooks[DISC + ":AirTouchDiscoverer.search"] = search_stub
+    r = h.call(FACT + ":_search", *([host] if host else []))
+    h.oblige("_search never raises", r.ok)
+    if not r.ok:
+        return
+    want_host = host if host else "255.255.255.255"
+    h.oblige("both generations are searched, each exactly once, with the caller's host (default: broadcast)",
+             sorted(searched) == [(4, want_host), (5, want_host)])
+    out = h.elems(r.value)
+    h.oblige("the result is exactly what the two searches found", And(len(out) == len(found[4]) + len(found[5]),
+                                                                       all(any(x is y for y in out) for x in found[4] + found[5])))
+    h.cover("_search explored")
+
+
 def _register(g):
     G = GEN[g]
+    oset(f"at{g}.discovery._open_socket", ["C18"], [DISC + ":AirTouchDiscoverer._open_socket", G["mod"] + ":" + G["reqcls"] + ".data"],
+         trusted=["socket.socket / bind / loop.create_datagram_endpoint do not fail (no OS error) and the endpoint calls the "
+                  "protocol factory once"])(lambda h: _open_socket(h, g))
     oset(f"at{g}.discovery.decoder", ["C18"], [G["mod"] + ":" + G["dec"] + ".match", G["mod"] + ":" + G["dec"] + ".decode"],
          assumptions=["str modelled by its UTF-8 bytes; bytes.decode raises UnicodeDecodeError exactly on invalid UTF-8"])(lambda h: _decoder(h, g))
     oset(f"at{g}.discovery.datagram_received", ["C18"], [DISC + ":_DiscoveryDecodeProtocol.datagram_received"],
